@@ -280,7 +280,10 @@ def handshake_scenario(sh: Shard, seed, idx, script):
                     return []
                 if v == "STATU":
                     # choose which segment of this attempt is lost (if the attempt is to fail)
-                    seg_drop["idx"] = r.randrange(0, 27) if attempts[step] < script[step] else None
+                    # (first, last and the one before last are where the assembly logic branches)
+                    seg_drop["idx"] = r.choice([0, 1, 25, 26, 26, r.randrange(0, 27), r.randrange(0, 27)]) if attempts[step] < script[step] else None
+                    if seg_drop["idx"] == 26:
+                        sh.count("handshake_attempts_losing_the_final_segment")
             elif v in REP:
                 step = REP[v]
                 if attempts[step] < script[step] and script["how"][step] != "request":
@@ -473,6 +476,7 @@ def main(tier, seed):
     run.need(run.counters.get("dispatches_after_which_handler_raised", 0) > 10, "no raising handler exercised")
     run.need(run.counters.get("unanswered_requests_ok", 0) + run.counters.get("answered_requests_ok", 0) > 50, "too few request lifetimes observed")
     run.need(run.counters.get("handshakes_completed", 0) > 30, "too few handshakes completed")
+    run.need(run.counters.get("handshake_attempts_losing_the_final_segment", 0) >= 3, "no handshake attempt lost the final status segment")
     run.need(run.counters.get("line_events_injected", 0) > 5000, "stress: yield injection saw too few line events")
     run.need(run.counters.get("raising_sends_queued", 0) > 10, "no raising send was queued")
     run.need(run.counters.get("send_batches_with_incoming_flood", 0) > 10, "no send batch was paced against an incoming flood")
